@@ -139,6 +139,11 @@ func loadCtx(repoDir string, patterns []string) (*Ctx, error) {
 
 func (c *Ctx) localKey(fn *ssa.Function) string {
 	if fn.Parent() != nil {
+		// a closure assigned to a named local variable is keyed by that name (stable under
+		// insertion of other closures), otherwise by its ordinal
+		if n := closureVarName(fn); n != "" {
+			return c.localKey(fn.Parent()) + "$" + n
+		}
 		return c.localKey(fn.Parent()) + strings.TrimPrefix(fn.Name(), fn.Parent().Name())
 	}
 	if recv := fn.Signature.Recv(); recv != nil {
@@ -703,4 +708,64 @@ func (c *Ctx) callExprAt(pos token.Pos) *ast.CallExpr {
 var readOnlyBytesFuncs = map[string]bool{
 	"bytes.HasPrefix": true, "bytes.HasSuffix": true, "bytes.Equal": true, "bytes.Compare": true,
 	"bytes.Contains": true, "bytes.Index": true,
+}
+
+// closureVarName: the local variable a closure value is directly stored into (x := func...).
+func closureVarName(fn *ssa.Function) string {
+	p := fn.Parent()
+	if p == nil {
+		return ""
+	}
+	name := ""
+	for _, b := range p.Blocks {
+		for _, ins := range b.Instrs {
+			var v ssa.Value
+			switch x := ins.(type) {
+			case *ssa.MakeClosure:
+				if x.Fn == fn {
+					v = x
+				}
+			}
+			if v == nil {
+				continue
+			}
+			for _, r := range *v.Referrers() {
+				if st, ok := r.(*ssa.Store); ok {
+					if al, ok := st.Addr.(*ssa.Alloc); ok && al.Comment != "" {
+						if name != "" && name != al.Comment {
+							return ""
+						}
+						name = al.Comment
+					}
+				}
+			}
+		}
+	}
+	// the name must be unique among the parent's closures
+	if name != "" {
+		for _, an := range p.AnonFuncs {
+			if an != fn && closureVarNameNoCheck(an) == name {
+				return ""
+			}
+		}
+	}
+	return name
+}
+
+func closureVarNameNoCheck(fn *ssa.Function) string {
+	p := fn.Parent()
+	for _, b := range p.Blocks {
+		for _, ins := range b.Instrs {
+			if x, ok := ins.(*ssa.MakeClosure); ok && x.Fn == fn {
+				for _, r := range *x.Referrers() {
+					if st, ok := r.(*ssa.Store); ok {
+						if al, ok := st.Addr.(*ssa.Alloc); ok && al.Comment != "" {
+							return al.Comment
+						}
+					}
+				}
+			}
+		}
+	}
+	return ""
 }
